@@ -287,7 +287,7 @@ func ruleR13(c *Ctx) {
 			continue
 		}
 		g := m.cfgOf(u)
-		guards := guardsOf(info, g)
+		guards := c.classifierGuards(u, g)
 		_, ycalls := yieldsOf(u)
 		switch {
 		case unitBase(parent.Name) == "rangeScan":
@@ -861,7 +861,7 @@ func ruleR39R40(c *Ctx) {
 		nLoops++
 		props := c.attribute(u, "C02", "C03", "C04", "C05", "C08", "C09")
 		g := m.cfgOf(u)
-		guards := guardsOf(info, g)
+		guards := c.classifierGuards(u, g)
 		yv, _ := info.Defs[u.Type.Params.List[0].Names[0]].(*types.Var)
 		// allowed reasons to leave: edges (block, succ)
 		type edge struct {
